@@ -298,6 +298,38 @@ fn spawn_async_ao_list_in_task'''),
         ('subshell-runs-in-parent', IN, 'let subshell_result = match list.execute(&mut subshell, params).await {', 'let subshell_result = match list.execute(shell, params).await {'),
         ('subshell-error-status-lost', IN, '                        error.into_result(&subshell)', '                        ExecutionResult::success()'),
     ],
+    'U4k': [
+        ('bang-does-not-suppress', IN, '''        if self.bang {
+            params.suppress_errexit = true;
+        }
+
+        // Spawn all''', '''        // Spawn all'''),
+        ('errexit-applied-to-negated', IN, '''        if !params.suppress_errexit && !self.bang {
+            shell.apply_errexit_if_enabled(&mut result);''', '''        if !params.suppress_errexit || self.bang {
+            shell.apply_errexit_if_enabled(&mut result);'''),
+        ('errexit-applied-when-suppressed', IN, '''        if !params.suppress_errexit && !self.bang {
+            shell.apply_errexit_if_enabled(&mut result);''', '''        if !self.bang {
+            shell.apply_errexit_if_enabled(&mut result);'''),
+        ('err-trap-in-exempt-context', IN, 'if !result.is_success() && !params.suppress_errexit && !self.bang {', 'if !result.is_success() && !self.bang {'),
+        ('bang-inversion-wrong', IN, 'ExecutionExitCode::from(if result.is_success() { 1 } else { 0 });', 'ExecutionExitCode::from(if result.is_success() { 0 } else { 1 });'),
+        ('status-set-before-inversion', IN, '''        // Invert the exit code if requested.
+        if self.bang {
+            result.exit_code = ExecutionExitCode::from(if result.is_success() { 1 } else { 0 });
+        }
+
+        // Update exit status.
+        shell.set_last_exit_status(result.exit_code.into());''', '''        // Update exit status.
+        shell.set_last_exit_status(result.exit_code.into());
+
+        // Invert the exit code if requested.
+        if self.bang {
+            result.exit_code = ExecutionExitCode::from(if result.is_success() { 1 } else { 0 });
+        }'''),
+        ('errexit-never-applied', IN, '''        if !params.suppress_errexit && !self.bang {
+            shell.apply_errexit_if_enabled(&mut result);
+        }
+''', ''),
+    ],
     'U5': [
         ('sub-becomes-add', AR, 'Ok(left.wrapping_sub(right))', 'Ok(left.wrapping_add(right))'),
         ('lt-becomes-le', AR, 'Ok(bool_to_i64(left < right))', 'Ok(bool_to_i64(left <= right))'),
